@@ -257,13 +257,18 @@ def _gen_atom(rng, feat, names, tasks, members, ri, step, use_future,
                     cands.append((m, -2 * step))
         if use_future and step and mi < ri:
             cands.append((m, step))
+    abs_cands = []
     if feat['abs_triggers']:
         for m in members:
             if names.index(m) < ri:
-                cands.append((m, ('abs', initial)))
+                abs_cands.append((m, ('abs', initial)))
+    cands += abs_cands
     if not cands:
         return None
-    t, off = rng.choice(cands)
+    if abs_cands and rng.random() < 0.35:
+        t, off = rng.choice(abs_cands)
+    else:
+        t, off = rng.choice(cands)
     td = tasks[t]
     outs = ['succeeded'] * 4 + ['started', 'submitted']
     if td['mode'] == 'both_optional':
